@@ -326,4 +326,111 @@ def apply_aliases(project):
                     changed.append(fn.fq)
             except RecursionError:
                 continue
+    for m in list(project.modules.values()):
+        if m.name.startswith('petl._controls'):
+            continue
+        for q, fn in list(m.functions.items()):
+            if fn.parent is not None:
+                continue
+            if not any(isinstance(x, ast.Assign) and isinstance(x.value, ast.Attribute) and len(x.targets) == 1 and
+                       isinstance(x.targets[0], ast.Name) for x in ast.walk(fn.node)):
+                continue
+            try:
+                if unhoist_bound_methods(fn.node):
+                    changed.append(fn.fq)
+            except RecursionError:
+                continue
     return sorted(set(changed))
+
+
+# ------------------------------------------------------------------ hoisted bound methods
+def unhoist_bound_methods(fn_node):
+    """`write = w.writerow` ... `write(row)`  ==  `w.writerow(row)`  (a bound method looked up once for speed) when the
+    local is bound once, only ever called, and -- if the receiver is a name -- that name is not re-bound.  A receiver that
+    is an expression (`csv.writer(f).writerow`) is evaluated once into a temporary.  Returns the number rewritten."""
+    assigns = {}
+    stores = {}
+    for n in ast.walk(fn_node):
+        if isinstance(n, (ast.FunctionDef, ast.AsyncFunctionDef, ast.Lambda)) and n is not fn_node:
+            continue
+    order = _ordered_statements(fn_node)
+    for idx, s, loops in order:
+        for x in _own_walk(s):
+            if isinstance(x, ast.Name) and isinstance(x.ctx, (ast.Store, ast.Del)):
+                stores[x.id] = stores.get(x.id, 0) + 1
+        if isinstance(s, ast.Assign) and len(s.targets) == 1 and isinstance(s.targets[0], ast.Name) and \
+                isinstance(s.value, ast.Attribute) and isinstance(s.value.ctx, ast.Load):
+            assigns.setdefault(s.targets[0].id, []).append((idx, s))
+    params = {a.arg for a in ast.walk(fn_node.args) if isinstance(a, ast.arg)}
+    nested_names = set()
+    for n in ast.walk(fn_node):
+        if isinstance(n, (ast.FunctionDef, ast.AsyncFunctionDef, ast.Lambda)) and n is not fn_node:
+            for x in ast.walk(n):
+                if isinstance(x, ast.Name):
+                    nested_names.add(x.id)
+    taken = {x.id for x in ast.walk(fn_node) if isinstance(x, ast.Name)} | params
+    done = 0
+    for name, defs in assigns.items():
+        if len(defs) != 1 or stores.get(name, 0) != 1 or name in params or name in nested_names:
+            continue
+        idx, stmt = defs[0]
+        attr = stmt.value
+        # every use is a call of the local, after the binding
+        uses = []
+        ok = True
+        for j, s2, _ in order:
+            for x in _own_walk(s2):
+                if isinstance(x, ast.Name) and x.id == name and isinstance(x.ctx, ast.Load):
+                    uses.append((j, x))
+        callee_ids = set()
+        for j, s2, _ in order:
+            for x in _own_walk(s2):
+                if isinstance(x, ast.Call) and isinstance(x.func, ast.Name) and x.func.id == name:
+                    callee_ids.add(id(x.func))
+        if not uses or any(j <= idx for j, _ in uses) or any(id(x) not in callee_ids for _, x in uses):
+            continue
+        recv = attr.value
+        if isinstance(recv, ast.Name):
+            if stores.get(recv.id, 0) > 1:
+                continue
+            recv_name = recv.id
+            stmt_new = None
+        else:
+            recv_name = '_recv_' + name
+            while recv_name in taken:
+                recv_name += '_'
+            taken.add(recv_name)
+            stmt_new = ast.copy_location(ast.Assign(targets=[ast.Name(id=recv_name, ctx=ast.Store())], value=recv,
+                                                    type_comment=None), stmt)
+
+        class _R(ast.NodeTransformer):
+            def visit_Call(self, node):
+                self.generic_visit(node)
+                if isinstance(node.func, ast.Name) and node.func.id == name:
+                    node.func = ast.copy_location(ast.Attribute(value=ast.Name(id=recv_name, ctx=ast.Load()), attr=attr.attr,
+                                                                ctx=ast.Load()), node.func)
+                return node
+
+            def visit_FunctionDef(self, node):
+                return node
+
+            visit_Lambda = visit_FunctionDef
+        for j, s2, _ in order:
+            if j > idx:
+                for f, v in list(ast.iter_fields(s2)):
+                    if f in ('body', 'orelse', 'finalbody', 'handlers') and isinstance(v, list) and v and \
+                            isinstance(v[0], (ast.stmt, ast.ExceptHandler)):
+                        continue
+                    if isinstance(v, list):
+                        setattr(s2, f, [(_R().visit(x) if isinstance(x, ast.AST) else x) for x in v])
+                    elif isinstance(v, ast.AST):
+                        setattr(s2, f, _R().visit(v))
+        if stmt_new is not None:
+            stmt.targets = stmt_new.targets
+            stmt.value = stmt_new.value
+        else:
+            _remove_statement(fn_node, stmt)
+        done += 1
+    if done:
+        ast.fix_missing_locations(fn_node)
+    return done
